@@ -2871,6 +2871,118 @@ def _record_args(fields: list[tuple[str, ast.expr | None]], call: ast.Call) -> l
     return out
 
 
+def _records_across_calls(mods: dict[str, Module], inv: dict, log: list[str]) -> None:
+    """A function of the reference tree that now returns a new record `Rec(a, b, ...)` instead of the tuple `(a, b, ...)`, and callers that bind the result to a
+    local read only as `r.field`: the return is the tuple in field order and the caller unpacks it, `r.field` being the unpacked name (which value reaches
+    which position is what the plumbing rules read)."""
+    recs = _record_classes(mods, inv)
+    if not recs:
+        return
+    producers: dict[str, str] = {}
+    for mod in mods.values():
+        for q, _, fn in _functions_of(mod):
+            rets = [r for r in ast.walk(fn) if isinstance(r, ast.Return) and r.value is not None]
+            if not rets:
+                continue
+            kinds = set()
+            for r in rets:
+                v = r.value
+                nm = (v.func.id if isinstance(v.func, ast.Name) else v.func.attr if isinstance(v.func, ast.Attribute) else None) if isinstance(v, ast.Call) else None
+                kinds.add(nm if nm in recs and _record_args(recs[nm], v) is not None else None)
+            if len(kinds) == 1 and None not in kinds and "." not in q:
+                producers[f"{mod.name}:{fn.name}"] = next(iter(kinds))
+    if not producers:
+        return
+
+    def resolve(mod: Module, c: ast.Call) -> str | None:
+        """module-level function a call refers to: a same-module function or a `from m import f` name (relative imports resolved against the module's package)."""
+        if not isinstance(c.func, ast.Name):
+            return None
+        nm_ = c.func.id
+        if f"{mod.name}:{nm_}" in producers:
+            return f"{mod.name}:{nm_}"
+        for st_ in ast.walk(mod.tree):
+            if isinstance(st_, ast.ImportFrom):
+                for a_ in st_.names:
+                    if (a_.asname or a_.name) == nm_:
+                        base = st_.module or ""
+                        if st_.level:
+                            pkg = mod.name.split(".")
+                            pkg = pkg[: len(pkg) - st_.level]
+                            base = ".".join([*pkg, base]) if base else ".".join(pkg)
+                        key = f"{base}:{a_.name}"
+                        return key if key in producers else None
+        return None
+    n = 0
+    consumers_ok: dict[str, bool] = {k: True for k in producers}
+    plans = []
+    for mod in mods.values():
+        for q, _, fn in _functions_of(mod):
+            for st in ast.walk(fn):
+                if not (isinstance(st, (ast.Assign, ast.AnnAssign)) and isinstance(getattr(st, "value", None), ast.Call)):
+                    for c in ([st] if isinstance(st, ast.Call) else []):
+                        nm = resolve(mod, c)
+                        if nm is None and isinstance(c.func, ast.Attribute) and any(k_.endswith(":" + c.func.attr) for k_ in producers):
+                            for k_ in producers:
+                                if k_.endswith(":" + c.func.attr):
+                                    consumers_ok[k_] = False   # reached through a module attribute: not followed
+                        if nm in producers and not any(isinstance(a, (ast.Assign, ast.AnnAssign)) and a.value is c for a in ast.walk(fn)):
+                            consumers_ok[nm] = False    # result used in some other way (passed on, indexed, ...)
+                    continue
+                c = st.value
+                nm = resolve(mod, c)
+                if nm is None:
+                    continue
+                tg = st.targets[0] if isinstance(st, ast.Assign) and len(st.targets) == 1 else st.target if isinstance(st, ast.AnnAssign) else None
+                fields = [f for f, _ in recs[producers[nm]]]
+                if isinstance(tg, (ast.Tuple, ast.List)):
+                    continue        # already unpacks (NamedTuple): positions speak for themselves
+                if not isinstance(tg, ast.Name):
+                    consumers_ok[nm] = False
+                    continue
+                x = tg.id
+                stores = [y for y in ast.walk(fn) if isinstance(y, ast.Name) and y.id == x and isinstance(y.ctx, (ast.Store, ast.Del))]
+                loads = [y for y in ast.walk(fn) if isinstance(y, ast.Name) and y.id == x and isinstance(y.ctx, ast.Load)]
+                attr_loads = [y for y in ast.walk(fn) if isinstance(y, ast.Attribute) and isinstance(y.value, ast.Name) and y.value.id == x and isinstance(y.ctx, ast.Load) and y.attr in fields]
+                if len(stores) != 1 or len(loads) != len(attr_loads):
+                    consumers_ok[nm] = False
+                    continue
+                plans.append((mod, q, fn, st, x, nm, fields))
+    for mod, q, fn, st, x, nm, fields in plans:
+        if not consumers_ok[nm]:
+            continue
+        fresh = {f: f"{x}__{f}" for f in fields}
+
+        class T(ast.NodeTransformer):
+            def visit_Attribute(self, node: ast.Attribute):  # noqa: N802
+                if isinstance(node.value, ast.Name) and node.value.id == x and isinstance(node.ctx, ast.Load) and node.attr in fresh:
+                    return ast.copy_location(ast.Name(id=fresh[node.attr], ctx=ast.Load()), node)
+                return self.generic_visit(node)
+        new_t = ast.Tuple(elts=[ast.Name(id=fresh[f], ctx=ast.Store()) for f in fields], ctx=ast.Store())
+        new_st = ast.copy_location(ast.Assign(targets=[new_t], value=st.value), st)
+        for owner in ast.walk(fn):
+            for fld in ("body", "orelse", "finalbody"):
+                lst = getattr(owner, fld, None)
+                if isinstance(lst, list):
+                    for k, y in enumerate(lst):
+                        if y is st:
+                            lst[k] = new_st
+        T().visit(fn)
+        ast.fix_missing_locations(fn)
+        n += 1
+        log.append(f"{mod.relpath} {q}: `{x} = {nm}(...)` read as the unpacking of the {len(fields)} fields of {producers[nm]}")
+    if n:
+        done = {nm for _, _, _, _, _, nm, _ in plans if consumers_ok[nm]}
+        for mod in mods.values():
+            for q, _, fn in _functions_of(mod):
+                if f"{mod.name}:{fn.name}" in done and "." not in q:
+                    for r in [r for r in ast.walk(fn) if isinstance(r, ast.Return) and isinstance(r.value, ast.Call)]:
+                        args = _record_args(recs[producers[f"{mod.name}:{fn.name}"]], r.value)
+                        r.value = ast.copy_location(ast.Tuple(elts=args, ctx=ast.Load()), r.value)
+                    fn.returns = None
+                    ast.fix_missing_locations(fn)
+
+
 def _scalarise_records(mods: dict[str, Module], inv: dict, log: list[str]) -> None:
     """Scalar replacement of new record types: `r = Rec(a, b)` ... `r.x`, `*r`, `p, q = r` are read as the values the record was built from
     (a refactoring that bundles values into a NamedTuple / dataclass to pass them around does not change which value reaches which position)."""
@@ -3269,6 +3381,7 @@ def canonicalise(mods: dict[str, Module]) -> dict:
     inl.run()
     fwd_log: list[str] = []
     _split_chain_loops(mods, fwd_log)
+    _records_across_calls(mods, inv, fwd_log)
     _scalarise_records(mods, inv, fwd_log)
     if any("record type" in x for x in fwd_log):
         inl2 = Inliner(mods, inv)  # a helper that took a whole record can be bound now that the record is spelled out
